@@ -65,14 +65,34 @@ def run_maps(ctx, p):
     u = np.asarray(p.get('u', v), dtype=np.float64)
     sig = dict(api=which)
     sc = max(1e-300, float(np.max(np.abs(v))))
+    if p.get('itype'):
+        # whole numbers held in an integer array (pixel coordinates, encoder counts): the same real vector
+        sig['element_type'] = 'unsigned' if p['itype'].startswith('u') else 'signed'
+        vi = np.asarray(p['v']).astype(p['itype'])
+        v = vi.astype(np.float64)
+        sc = max(1.0, float(np.max(np.abs(v))))
     try:
-        if which == 'vex_skew':            # length 1 or 3
+        if p.get('itype') and which == 'vex_skew':
+            Sk = b.skew(vi)
+            d = max(md(np.asarray(Sk, dtype=np.float64), ref.skew(v)), md(b.vex(Sk), v),
+                    (md(np.asarray(b.skew(vi), dtype=np.float64) @ u, np.cross(v, u)) / max(1.0, float(np.max(np.abs(u))))) if len(v) == 3 else 0.0) / sc
+        elif p.get('itype') and which == 'vexa_skewa':
+            Sa = b.skewa(vi)
+            d = max(md(np.asarray(Sa, dtype=np.float64), ref.skewa(v)), md(b.vexa(Sa), v)) / sc
+        elif which == 'vex_skew':            # length 1 or 3
             d = md(b.vex(b.skew(v)), v) / sc
             Sk = b.skew(v)
             d = max(d, md(b.skew(b.vex(Sk)), Sk) / sc, md(Sk, ref.skew(v)) / sc, md(Sk, -Sk.T) / sc)
+            # the same matrix as another object: Fortran-ordered, a transposed view (-S.T is S), frozen, a slice of a bigger array
+            for lay in gen.LAYOUTS[:4]:
+                d = max(d, md(b.vex(gen.layout(Sk, lay)), v) / sc)
+            d = max(d, md(b.vex(-Sk.T), v) / sc, md(b.vex(np.array(Sk.T, order='C').T), v) / sc)
         elif which == 'vexa_skewa':        # length 3 or 6
             Sa = b.skewa(v)
             d = max(md(b.vexa(Sa), v), md(b.skewa(b.vexa(Sa)), Sa), md(Sa, ref.skewa(v))) / sc
+            for lay in gen.LAYOUTS[:4]:
+                d = max(d, md(b.vexa(gen.layout(Sa, lay)), v) / sc)
+            d = max(d, md(b.vexa(np.array(Sa.T, order='C').T), v) / sc)
         elif which == 'skew_cross':
             sc = max(1e-300, float(np.linalg.norm(v) * np.linalg.norm(u)))
             want = np.cross(v, u)
@@ -145,6 +165,13 @@ def run_adj(ctx, p):
             d = max(md(b.tr2jac(T1), want), md(sm.SE3(T1).jacob(), want),
                     md(b.tr2jac(T1, samebody=True), ref.adjoint(Ti)) / max(1.0, t1),
                     md(b.adjoint(T1) @ b.tr2jac(T1, samebody=True), np.eye(6)) / max(1.0, t1) ** 2)
+            # the flag as a caller may hold it (the result of a NumPy comparison, 0 / 1), positional or by keyword; the matrix
+            # as a Fortran-ordered / frozen / strided object
+            TF = np.asfortranarray(T1)
+            d = max(d, md(b.tr2jac(T1, samebody=np.bool_(True)), ref.adjoint(Ti)) / max(1.0, t1), md(b.tr2jac(T1, 1), ref.adjoint(Ti)) / max(1.0, t1),
+                    md(b.tr2jac(T1, np.bool_(False)), want), md(b.tr2jac(T1, samebody=0), want),
+                    md(b.tr2jac(TF), want), md(b.tr2jac(gen.layout(T1, 'readonly'), samebody=True), ref.adjoint(Ti)) / max(1.0, t1),
+                    md(b.adjoint(TF), ref.adjoint(T1)) / max(1.0, t1), md(b.adjoint(gen.layout(T1, 'strided')), ref.adjoint(T1)) / max(1.0, t1))
         elif which == 'jacobian_held':
             # the way the results are used: several Jacobians / adjoints are obtained first and combined afterwards
             R1, R2 = T1[:3, :3], T2[:3, :3]
@@ -311,6 +338,12 @@ def run(ctx):
         n = n[rng.integers(len(n))]
         lo, hi = (1e-6, 1e6) if rng.random() < 0.6 else (1e-2, 1e2)
         drive(RUNNERS, ctx, 'maps', dict(which=which, v=gen.vec(rng, n, lo, hi), u=gen.vec(rng, n, lo, hi)))
+        if which in ('vex_skew', 'vexa_skewa') and rng.random() < 0.15:
+            it = ['uint8', 'uint16', 'uint64', 'int8', 'int16', 'int64'][rng.integers(6)]
+            hi_ = {'uint8': 256, 'uint16': 65536, 'uint64': 10 ** 6, 'int8': 128, 'int16': 32768, 'int64': 10 ** 6}[it]
+            vi = rng.integers(0 if it[0] == 'u' else -hi_, hi_, size=n)      # (the most negative value of a signed type included)
+            if np.any(vi):
+                drive(RUNNERS, ctx, 'maps', dict(which=which, v=[int(x) for x in vi], u=gen.vec(rng, n, 1e-2, 1e2), itype=it))
     for _ in range(ctx.scale(5000, 120000)):
         which = ['Ad_value', 'Ad_homomorphism', 'Ad_inverse', 'Ad_intertwine', 'exp_ad', 'jacobian', 'jacobian_held'][rng.integers(7)]
         p = dict(which=which, T1=general_T(rng), T2=general_T(rng), S=twist(rng))
